@@ -156,6 +156,7 @@ def gen_spec(rng, focus, small=False):
     big_budget = 1_200_000
     file_dirs = [d for d in dirs if d != "out"] + (["out"] if outside else [])
     names = iter("f%02d" % i for i in range(200))
+    used_paths = set()
     for ci in range(nclasses):
         n = rng.choice(sizes)
         if rng.chance(1, 3):
@@ -196,7 +197,12 @@ def gen_spec(rng, focus, small=False):
                 lk = {"C06": (1, 2), "C03": (1, 4), "C01": (1, 5)}[focus]
                 while rng.chance(*lk) and len(files) + len(links) < budget:
                     d = rng.choice(file_dirs)
-                    links.append({"p": d + "/" + next(names), "to": p})
+                    name = next(names)
+                    same = d + "/" + p.split("/")[-1]
+                    if rng.chance(1, 3) and d != p.rsplit("/", 1)[0] and same not in used_paths:
+                        name = p.split("/")[-1]          # a hard link with the same file name in another directory
+                    used_paths.add(d + "/" + name)
+                    links.append({"p": d + "/" + name, "to": p})
                 if rng.chance(1, 8):
                     d = rng.choice(file_dirs)
                     symlinks.append({"p": d + "/" + next(names), "to": "$T/" + p})
@@ -220,7 +226,10 @@ def gen_spec(rng, focus, small=False):
     for p in paths:
         s = "plain"
         if rng.chance(*spell_odds):
-            s = rng.choice(["dot", "slash", "dotdot", "symlink", "abs"])
+            # a symlink to a FILE is a different scanned object (skipped without -S), so file roots are only
+            # re-spelled in ways that name the same directory entry
+            is_file_root = any(f["p"] == p for f in files)
+            s = rng.choice(["dot", "dotdot", "abs"] if is_file_root else ["dot", "slash", "dotdot", "symlink", "abs"])
         spelled.append([p, s])
     # options that depend on the number of roots
     if rng.chance(*((1, 2) if focus == "C06" else (1, 4))) and isolate_valid(opts, len(spelled)):
@@ -228,6 +237,39 @@ def gen_spec(rng, focus, small=False):
     spec = {"dirs": dirs, "files": files, "links": links, "symlinks": symlinks, "contents": contents,
             "roots": spelled, "opts": opts, "env": {"disk_kind": kind, "mounts": mounts},
             "probes": [[1, 65536], [0, 65535], [0, 65537], [3, 131072]] if rng.chance(1, 3) else []}
+    return spec
+
+
+def k11_pred(spec):
+    """the class K11 of Props_C01.v on a spec: some file passes the suffix threshold of its device, is shorter than
+    --max-prefix-size and not longer than --max-suffix-size"""
+    o = spec["opts"]
+    if o.get("max_prefix") is None or o.get("max_suffix") is None or o.get("transform"):
+        return False
+    kinds = [spec["env"].get("disk_kind") or "unknown"] + [m[0] for m in spec["env"].get("mounts", [])]
+    thr_min = min(KIND_CONSTS[k][3] for k in kinds)
+    return any(thr_min <= c["len"] < o["max_prefix"] and c["len"] <= o["max_suffix"] for c in spec["contents"].values())
+
+
+def gen_k11_spec(rng):
+    """trees aimed at K11: SSD, --max-prefix-size above and --max-suffix-size not below the length of files >= 64 KiB"""
+    spec = gen_spec(rng, "C01", small=True)
+    o = spec["opts"]
+    o["transform"] = None
+    o["max_prefix"] = rng.choice([70000, 1024 * KIB])
+    o["max_suffix"] = rng.choice([70000, 1024 * KIB])
+    o["min_size"], o["max_size"] = 0, None
+    spec["env"] = {"disk_kind": "ssd", "mounts": []}
+    n = rng.choice([65536, 65537, 69999]) if o["max_prefix"] == 70000 else rng.choice([65536, 70000, 131072, 200000])
+    fam = rng.below(1000)
+    base = base_bytes(fam)
+    spec["contents"] = {"a": {"fam": fam, "len": n, "muts": []},
+                        "b": {"fam": fam, "len": n, "muts": [[n // 2, (base[n // 2] + 1) % 256]]}}
+    d = spec["dirs"][0]
+    spec["files"] = [{"p": d + "/k%d" % i, "c": "ab"[i % 2]} for i in range(4 + rng.below(2))]
+    spec["links"], spec["symlinks"] = [], []
+    spec["roots"] = [[d, "plain"]]
+    o["isolate"] = False
     return spec
 
 
@@ -481,6 +523,29 @@ def run_grp(cases, prefix):
     return outs
 
 
+def run_grp_lines(lines, prefix):
+    """plain line cases (Q ...) through the harness, sharded over the cores"""
+    from concurrent.futures import ThreadPoolExecutor
+    shards = list(core.chunks(lines, max(1, (len(lines) + core.NCPU - 1) // core.NCPU)))
+
+    def one(i):
+        fin, fout = "%s_%d.in" % (prefix, i), "%s_%d.out" % (prefix, i)
+        with open(fin, "w") as f:
+            f.write("\n".join(shards[i]) + "\n")
+        p = core.run([GRP, fin, fout], timeout=900)
+        if p.returncode != 0:
+            raise RuntimeError("grp exited %d: %s" % (p.returncode, p.stderr[-2000:]))
+        out = [l for l in open(fout).read().split("\n") if l]
+        os.remove(fin)
+        os.remove(fout)
+        if len(out) != len(shards[i]):
+            raise RuntimeError("grp: %d results for %d lines" % (len(out), len(shards[i])))
+        return out
+    with ThreadPoolExecutor(max_workers=core.NCPU) as ex:
+        parts = list(ex.map(one, range(len(shards))))
+    return [x for p in parts for x in p]
+
+
 class Engine:
     def __init__(self, ctx, focus):
         self.ctx = ctx
@@ -598,31 +663,46 @@ def neighbourhood(rng, spec):
     return rng.shuffle(out)[:60]
 
 
-def shrink(engine, spec, still_bad, budget=40):
-    """greedy removal of files / links / symlinks / roots while the failure persists"""
-    cur = spec
-    changed = True
-    while changed and budget > 0:
-        changed = False
+def shrink(engine, spec, still_bad, budget=30):
+    """delta debugging by rounds: all single removals of a file / link / symlink / root are tried in parallel, every
+    removal that keeps the failure is applied (re-validated together), at most 4 rounds"""
+    def removals(cur):
+        out = []
         for key in ("links", "symlinks", "files"):
-            i = 0
-            while i < len(cur[key]) and budget > 0:
+            for i in range(len(cur[key])):
                 s = json.loads(json.dumps(cur))
                 victim = s[key].pop(i)
                 if key == "files":
                     s["links"] = [l for l in s["links"] if l["to"] != victim["p"]]
                     s["symlinks"] = [l for l in s["symlinks"] if l["to"] != "$T/" + victim["p"]]
-                budget -= 1
-                try:
-                    r = engine.run_specs([s])[0]
-                except Exception:
-                    i += 1
-                    continue
-                if still_bad(r):
-                    cur = s
-                    changed = True
-                else:
-                    i += 1
+                    if any(p == victim["p"] for p, _ in s["roots"]):
+                        continue
+                out.append((key, victim, s))
+        return out[:budget]
+    cur = spec
+    for _ in range(4):
+        cands = removals(cur)
+        if not cands:
+            break
+        try:
+            res = engine.run_specs([c[2] for c in cands])
+        except Exception:
+            break
+        good = [c for c, r in zip(cands, res) if still_bad(r)]
+        if not good:
+            break
+        # apply all removable items at once if the failure survives, else only the first
+        s = json.loads(json.dumps(cur))
+        for key, victim, _ in good:
+            s[key] = [x for x in s[key] if x != victim]
+            if key == "files":
+                s["links"] = [l for l in s["links"] if l["to"] != victim["p"]]
+                s["symlinks"] = [l for l in s["symlinks"] if l["to"] != "$T/" + victim["p"]]
+        try:
+            ok = still_bad(engine.run_specs([s])[0])
+        except Exception:
+            ok = False
+        cur = s if ok else good[0][2]
     return cur
 
 
@@ -686,6 +766,15 @@ def run_generated(ctx, focus, n_cases, oracle_kinds=None):
     oracle_kinds: the oracle failure kinds that belong to this property (others are still reported, they
     mean the implementation broke a sibling property on an input this check generated)."""
     eng = Engine(ctx, focus)
+    cdir = os.path.join(core.VERIF, "corpus", ctx.prop)
+    corpus = []
+    if os.path.isdir(cdir):
+        for f in sorted(os.listdir(cdir)):
+            if f.endswith(".json"):
+                corpus.append(json.load(open(os.path.join(cdir, f)))["spec"])
+    if corpus:
+        ctx.bump("corpus_cases", len(corpus))
+        process_results(ctx, eng, eng.run_specs(corpus))
     specs = [gen_spec(ctx.rng.fork(), focus) for _ in range(n_cases)]
     results = eng.run_specs(specs)
     check_consts(ctx, eng.model, results[:3])
@@ -725,20 +814,29 @@ def process_results(ctx, eng, results, do_search=True):
             def still(rr, kind=kind):
                 return any(x["kind"] == kind for x in rr["oracle_bad"])
             small = r["spec"]
-            if sum(1 for v in ctx.violations if v[0].get("kind") == kind) == 0:
-                small = shrink(eng, r["spec"], still)
-            rr = eng.run_specs([small])[0]
-            if not still(rr):
-                rr = r
+            if not hasattr(ctx, "_shrunk_kinds"):
+                ctx._shrunk_kinds = []
+            shrunk = ctx._shrunk_kinds
+            rr = r
+            if kind not in shrunk:
+                shrunk.append(kind)
+                small = shrink(eng, r["spec"], still, budget=30)
+                rr = eng.run_specs([small])[0]
+                if not still(rr):
+                    rr = r
             oo = rr["spec"]["opts"]
-            ctx.violation({"kind": kind, "transform": bool(oo.get("transform")),
+            ctx.violation({"kind": kind, "transform": bool(oo.get("transform")), "k11": k11_pred(rr["spec"]),
                            "under": bool(oo.get("unique") or oo.get("rf_under") is not None),
                            "isolate": bool(oo.get("isolate"))},
                           "fclones group violates the property on a generated tree: %s" % json.dumps(rr["oracle_bad"][0])[:600],
                           replay_payload(rr), found_input=True)
         elif r["corr_bad"] and first_corr is None:
             first_corr = r
-    if first_corr is not None:
+    if first_corr is not None and any(v[3] for v in ctx.violations):
+        # a concrete failing input was already found by the oracle: it is the replay (DESIGN 2.3)
+        ctx.extra["model_ne_impl_cases"] = sum(1 for x in results if x["corr_bad"])
+        core.log("model/implementation disagreement on %d cases (a failing input is already reported)" % ctx.extra["model_ne_impl_cases"])
+    elif first_corr is not None:
         r = first_corr
         found = None
         if do_search:
@@ -766,6 +864,103 @@ def run_replay(ctx, focus):
     results = eng.run_specs([rp["spec"]])
     process_results(ctx, eng, results, do_search=False)
     return eng, results
+
+
+def rel_groups(r):
+    """report body with paths relative to the tree (for comparing runs on different copies of one tree)"""
+    base = os.fsencode(r["case"]["base_dir"]) + b"/"
+    out = []
+    for ln, h, ps in parse_groups(r["out"].get("impl", "-")) if not r["out"].get("impl", "").startswith(("ERR", "PANIC")) else []:
+        out.append((ln, h, [p[len(base):] if p.startswith(base) else p for p in ps]))
+    return out
+
+
+def cli_args(case):
+    o = case["opts"]
+    a = ["group", "-f", "json", "--no-ignore", "--base-dir", case["base_dir"]]
+    if o.get("rf_over") is not None:
+        a += ["--rf-over", str(o["rf_over"])]
+    if o.get("rf_under") is not None:
+        a += ["--rf-under", str(o["rf_under"])]
+    for k, flag in (("unique", "--unique"), ("isolate", "--isolate"), ("match_links", "--match-links"),
+                    ("symbolic_links", "--symbolic-links"), ("follow_links", "--follow-links")):
+        if o.get(k):
+            a.append(flag)
+    if o.get("max_prefix") is not None:
+        a += ["--max-prefix-size", str(o["max_prefix"])]
+    if o.get("max_suffix") is not None:
+        a += ["--max-suffix-size", str(o["max_suffix"])]
+    if o.get("min_size"):
+        a += ["--min", str(o["min_size"])]
+    if o.get("max_size") is not None:
+        a += ["--max", str(o["max_size"])]
+    a += ["--hash-fn", {"xxhash3": "xxhash"}.get(o.get("hash_fn", "metro"), o.get("hash_fn", "metro"))]
+    if o.get("transform"):
+        a += ["--transform", o["transform"]]
+    for t in o.get("threads") or []:
+        a += ["--threads", "%s:%d,%d" % (t[0], t[1], t[2])]
+    return a + list(case["paths"])
+
+
+def run_cli(fclones_bin, case):
+    """the same case through the command-line binary; returns the report body in the canonical form or 'ERR ..'"""
+    env = {"TMPDIR": case["tmp"], "XDG_CACHE_HOME": case["tmp"] + "/cache"}
+    if case["env"].get("disk_kind"):
+        env["FCLONES_VERIF_DISK_KIND"] = case["env"]["disk_kind"]
+    if case["env"].get("mounts"):
+        env["FCLONES_VERIF_MOUNTS"] = case["env"]["mounts"]
+    p = core.run([fclones_bin] + cli_args(case), env=env, timeout=300, cwd=case["base_dir"])
+    if p.returncode != 0:
+        return "ERR exit %d: %s" % (p.returncode, p.stderr[-300:])
+    try:
+        rep = json.loads(p.stdout)
+    except Exception as e:  # noqa
+        return "ERR unparsable json report: %r" % (e,)
+    gs = []
+    for g in rep.get("groups", []):
+        gs.append((g["file_len"], g["file_hash"], [os.fsencode(x) for x in g["files"]]))
+    return gs
+
+
+def gen_q_case(rng):
+    """a pure replica-counting case: 0-3 roots (possibly nested / repeated), 1-7 paths inside and outside the
+    roots, an inode per path drawn from a small pool (hard links inside and across roots)"""
+    def hexpath(p):
+        return ",".join(["2f"] + [c.encode().hex() for c in p.strip("/").split("/") if c])
+    pool = ["/a", "/b", "/a/s", "/c", "/b/t"]
+    roots = []
+    for _ in range(rng.below(4)):
+        roots.append(rng.choice(pool))
+    dirs = pool + ["/x", "/a/s/u", "/ab"]
+    nfiles = 1 + rng.below(7)
+    ninodes = 1 + rng.below(nfiles)
+    files = []
+    for i in range(nfiles):
+        d = rng.choice(dirs)
+        files.append((d + "/f%d" % i, 1 + rng.below(2) if rng.chance(1, 8) else 1, 100 + rng.below(ninodes)))
+    repl = ("O%d" % rng.below(4)) if rng.chance(1, 2) else ("U%d" % (1 + rng.below(5)))
+    by_id = rng.below(2)
+    line = "Q %s %d %s %s" % (repl, by_id, ";".join(hexpath(r) for r in roots) or "-",
+                              ";".join("%s:%d:%d:0:3" % (hexpath(p), dev, ino) for p, dev, ino in files))
+    return line, roots, files, repl, by_id
+
+
+def q_reference(roots, files, repl, by_id):
+    """the counting rule of the property text on a pure case -> (count, reported)"""
+    used, rest = set(), []
+    for p, dev, ino in files:
+        idx = None
+        for i, r in enumerate(roots):
+            if p == r or p.startswith(r + "/"):
+                idx = i
+                break
+        if idx is None:
+            rest.append((p, dev, ino))
+        else:
+            used.add(idx)
+    k = len(used) + (len(set((d, i) for _, d, i in rest)) if by_id else len(rest))
+    n = int(repl[1:])
+    return k, (k > n if repl[0] == "O" else k < n)
 
 
 COMMON_ASSUMPTIONS = [
